@@ -13,5 +13,5 @@ Extraction "model.ml" giv_multiplier giv_modulo giv_halfmod giv_ctor_normalises
   nonzerorandom_2exp nonzerorandom_int random_between_2exp random_word nonzerorandom_word
   rii_next rii_bits rii_init rii_step qfield_random giv_randiter_clamps ext_size ext_coeff ext_randiter modint_randiter ru_rand modru_random modru_nonzerorandom orc_of_list
   poly_random_resizes poly_random_into poly_random_gfq_into preq_degree poly_seq poly_seq_gfq
-  ri_ctor_size ri_ctor ri_step ri_run mii_ctor rii_ctor_seed modint_nonzero mg_reduc mgru_random mgru_nonzerorandom rm_mga_rand gfqx_init_indices gfqx_random.
+  ri_ctor_size ri_ctor ri_step ri_run mii_ctor rii_ctor_seed modint_nonzero mg_reduc mgru_random mgru_nonzerorandom rm_mga_rand gfqx_init_indices gfqx_random randiter_assign_copies_size.
 Cd "..".
